@@ -54,6 +54,65 @@ func (p *Program) assignLocs(con *Contract, sig *types.Signature) (locs []assign
 			locs = append(locs, assignLoc{array: a, all: true, src: a})
 			continue
 		}
+		if strings.HasSuffix(a, "[*]") {
+			// name[*]: the objects (map[string]interface{}) held by the values of map parameter name: what a caller hands in
+			// as variables and the callee may coerce in place
+			name := strings.TrimSuffix(a, "[*]")
+			pt, ok := params[name]
+			if !ok {
+				return nil, false, fmt.Errorf("assigns: unknown parameter %q", name)
+			}
+			if _, isMap := pt.Underlying().(*types.Map); !isMap {
+				return nil, false, fmt.Errorf("assigns: %q is not a map parameter", name)
+			}
+			vmt := types.NewMap(types.Typ[types.String], types.NewInterfaceType(nil, nil))
+			h, d := p.mapArrays(vmt)
+			ks, vs := p.sortOf(vmt.Key()), p.sortOf(vmt.Elem())
+			parts := func(tr *Translator) (kv T, guard T, ref T, val T) {
+				qcount++
+				kv = T{fmt.Sprintf("k!v%d", qcount), SStr}
+				saved := tr.bound
+				nb := map[string]tv{}
+				for k, x := range saved {
+					nb[k] = x
+				}
+				nb["kq9"] = tv{kv, tyString}
+				tr.bound = nb
+				savedOld := tr.inOld
+				tr.inOld = true
+				defer func() { tr.bound = saved; tr.inOld = savedOld }()
+				mustE := func(src string) Expr {
+					e, err := parseExpr(src)
+					if err != nil {
+						tr.fail("assigns %s: %v", a, err)
+					}
+					return e
+				}
+				hasT := tr.boolExpr(mustE("has(" + name + ", kq9)"))
+				isM := tr.boolExpr(mustE("is(" + name + "[kq9], map[string]interface{})"))
+				ref = tr.expr(mustE("as(" + name + "[kq9], map[string]interface{})")).t
+				// pattern: the raw look-up (the translated look-up is an ite over membership, not usable as a pattern)
+				mref := tr.expr(mustE(name)).t
+				hv := tr.stVar(h, ArrSort(SInt, ArrSort(ks, vs)))
+				val = T{fmt.Sprintf("(select (select %s %s) %s)", hv.S, mref.S, kv.S), vs}
+				return kv, And(hasT, isM), ref, val
+			}
+			for _, ar := range []struct {
+				n string
+				s Sort
+			}{{h, ArrSort(SInt, ArrSort(ks, vs))}, {d, ArrSort(SInt, ArrSort(ks, SBool))}} {
+				locs = append(locs, assignLoc{array: ar.n, sort: ar.s, src: a,
+					pred: func(tr *Translator, r T) T {
+						kv, g, ref, val := parts(tr)
+						return T{fmt.Sprintf("(exists ((%s Str)) (! (and %s (= %s %s)) :pattern (%s)))", kv.S, g.S, r.S, ref.S, val.S), SBool}
+					},
+					forall: func(tr *Translator, cond func(T) T) T {
+						kv, g, ref, val := parts(tr)
+						return T{fmt.Sprintf("(forall ((%s Str)) (! (=> %s %s) :pattern (%s)))", kv.S, g.S, cond(ref).S, val.S), SBool}
+					}})
+			}
+			continue
+		}
 		if m := reForallLoc.FindStringSubmatch(a); m != nil {
 			v, sl, base, fld := m[1], m[2], m[3], m[4]
 			slE, e1 := parseExpr(sl)
